@@ -41,6 +41,25 @@ Theorem C15_height_all :
                Height i t = shape_height sh.
 Proof. intros K V cmp TO i h. exact (height_ok_all cmp TO i h). Qed.
 
+(** The invariants also hold when the history continues ON the table returned by SelectMatch or
+    PartitionMatch (a table of its own: DeleteMin runs, Puts below the minimum, ... on the
+    selection). [c15_props i t] is, for AVL: balanced, cached heights exact, [avl_check]; for
+    red-black: the colour invariants, the 2*log2(n+1) bound, [rb_check]; and for every
+    implementation: Height() is the height of the shape given by the two traversals. *)
+Theorem C15_selection_continues :
+  forall (K V : Type) (cmp : K -> K -> Z), TotalOrder cmp ->
+  forall (i : impl) (h : list (mut K V)) (p : K -> V -> bool) (h2 : list (mut K V)),
+  exists t t' t'', build cmp i h = Ok t /\ SelectMatch cmp i p t = Ok t' /\
+    build_from cmp i t' h2 = Ok t'' /\ c15_props cmp i t''.
+Proof. intros K V cmp TO i h p h2. exact (selection_c15 cmp TO i h p h2). Qed.
+
+Theorem C15_partition_continues :
+  forall (K V : Type) (cmp : K -> K -> Z), TotalOrder cmp ->
+  forall (i : impl) (h : list (mut K V)) (p : K -> V -> bool) (second : bool) (h2 : list (mut K V)),
+  exists t ta tb t'', build cmp i h = Ok t /\ PartitionMatch cmp i p t = (Ok ta, Ok tb) /\
+    build_from cmp i (if second then tb else ta) h2 = Ok t'' /\ c15_props cmp i t''.
+Proof. intros K V cmp TO i h p second h2. exact (partition_c15 cmp TO i h p second h2). Qed.
+
 (** The boolean checkers evaluated by the correspondence imply the propositions. *)
 Theorem C15_avl_check_sound :
   forall (K V : Type) (t : tree K V), avl_check t = true -> balanced t /\ cached_heights_ok t.
@@ -72,3 +91,5 @@ Print Assumptions C15_rb.
 Print Assumptions C15_height_all.
 Print Assumptions C15_avl_check_sound.
 Print Assumptions C15_rb_check_sound.
+Print Assumptions C15_selection_continues.
+Print Assumptions C15_partition_continues.
